@@ -182,7 +182,15 @@ def run_targets(chk, testbin, cases_path, targets, tag=""):
         log.close()
         txt = open(log.name, errors="replace").read()
         if rc != 0 or "VERIF_DONE" not in txt:
-            raise C.Undecided("layout harness failed for %s:\n%s" % (goarch, txt[-3000:]))
+            last = -1
+            try:
+                with open(out) as f:
+                    for line in f:
+                        last = json.loads(line).get("i", last)
+            except Exception:
+                pass
+            raise C.Undecided("layout harness died for %s while observing the case after #%d (a crash of the real code is "
+                              "not a verdict on the property):\n%s" % (goarch, last, txt[-3000:]))
         info, obs = None, {}
         with open(out) as f:
             for line in f:
@@ -539,7 +547,12 @@ def check(chk):
     # the end-to-end program is built while the in-process harness runs
     n_e2e = 1500 if thorough else 60
     leaves = [i for i, d in enumerate(recs) if d["ph"] == 1]
+    # deterministic representatives (so that a known class is met whatever the seed) + a seeded sample
+    I8, FNT = {"k": "basic", "n": "int8"}, {"k": "func"}
+    sentinels = [{"k": "struct", "fields": [I8, {"k": "struct", "fields": []}]}, {"k": "alias", "u": {"k": "struct", "fields": [FNT]}},
+                 {"k": "struct", "fields": [I8, FNT, {"k": "basic", "n": "int64"}]}, {"k": "array", "len": 3, "e": {"k": "struct", "fields": [FNT]}}]
     pick = set(leaves) | set(rng.sample(range(len(recs)), min(n_e2e, len(recs))))
+    pick |= set(index[tkey(t)] for t in sentinels if tkey(t) in index)
     e2e_idx = closure(recs, index, pick)
     if os.environ.get("VERIF_C08_E2E") != "0":
         f_llgo.result()
